@@ -6,7 +6,7 @@ ALL=$(python3 -c "import json;print(' '.join(c['property_id'] for c in json.load
 mkdir -p /tmp/seedmx
 one(){ s="$1"; id=$(basename $s); TRY_LINES=400 tools/try_patch.sh "$s/patch.diff" $ALL > /tmp/seedmx/$id.out 2>&1; }
 N=0
-for s in "$DIR"/C*/; do one "${s%/}" & N=$((N+1)); [ $((N % 5)) -eq 0 ] && wait; done; wait
+for s in "$DIR"/C*/; do one "${s%/}" & N=$((N+1)); [ $((N % ${PAR:-5})) -eq 0 ] && wait; done; wait
 python3 - "$DIR" <<'PY'
 import sys,glob,re,json,os
 d=sys.argv[1]; mx={}
